@@ -6,7 +6,7 @@ ids=${@:-$(cat ../tools/claimed.txt)}
 for pid in $ids; do
   ( timeout 3000 coqchk -silent -o -Q . Verif Verif.$pid.Props > ../trusted/coqchk_$pid.txt 2>&1; echo "exit=$?" >> ../trusted/coqchk_$pid.txt ) &
   # at most 4 at a time (each can take several GB)
-  while [ $(jobs -r | wc -l) -ge 4 ]; do sleep 2; done
+  while [ $(pgrep -c coqchk) -ge 6 ]; do sleep 2; done
 done
 wait
 grep -l "exit=0" ../trusted/coqchk_*.txt | wc -l
